@@ -377,8 +377,11 @@ async fn lx_part(rep: &mut Report, thorough: bool) -> Result<(), String> {
     //      the origin receives the body exactly, and everything the origin sends back reaches the client exactly
     {
         let origin = start_target("127.0.0.1", TargetMode::Echo, vec![]).await;
-        for (ci, n) in (if thorough { vec![0usize, 1, 1023, 1024, 1025, 8191, 8192, 8193, 65535, 65536, 65537, 300_000, 1_000_000] } else { vec![0usize, 1, 1024, 8192, 8193, 65536, 300_000] }).into_iter().enumerate() {
-            let name = format!("POST with a {n}-byte body in 1000-byte writes to an echoing origin");
+        let mut sizes: Vec<(usize, bool)> = (if thorough { vec![0usize, 1, 1023, 1024, 1025, 8191, 8192, 8193, 65535, 65536, 65537, 300_000, 1_000_000] } else { vec![0usize, 1, 1024, 8192, 8193, 65536, 300_000] }).into_iter().map(|n| (n, false)).collect();
+        // the client closes its sending side once the request is out and waits for the answer (HTTP/1.0 style clients)
+        sizes.extend([(0usize, true), (1024, true), (65536, true), (300_000, true)]);
+        for (ci, (n, half_close)) in sizes.into_iter().enumerate() {
+            let name = format!("POST with a {n}-byte body in 1000-byte writes to an echoing origin{}", if half_close { ", client half-closes after the request" } else { "" });
             rep.case(Some(&name));
             let head = format!("POST http://{}/b HTTP/1.1\r\nHost: {}\r\nContent-Length: {n}\r\n\r\n", origin.addr, origin.addr);
             let body = pat_vec(90 + ci as u8, 0, 0, n);
@@ -392,6 +395,9 @@ async fn lx_part(rep: &mut Report, thorough: bool) -> Result<(), String> {
                     let _ = wr.write_all(ch).await;
                 }
                 let _ = wr.flush().await;
+                if half_close {
+                    let _ = wr.shutdown().await;
+                }
             };
             let reader = async {
                 let mut got: Vec<u8> = vec![];
